@@ -387,6 +387,11 @@ func runC06(c *Checker) {
 		c.ok("STARVE", "resendTicker.Reset|none outside the send goroutine", rl.Pos(), "only the send goroutine restarts the resend timer")
 	}
 	c.floor("STARVE", 1)
+
+	// 'with keepalive enabled the calls of both endpoints fail within a bounded time': the keepalive wiring
+	ruleKA(c)
+	// 'stops retransmitting once everything has been acknowledged' also needs the base moves to be honoured
+	ruleWIN4(c)
 }
 
 // derivesFromField: v is a load of f or a phi/modular step of one.
@@ -441,8 +446,7 @@ func fieldLoadIn(fn *ssa.Function, f *types.Var) ssa.Value {
 // iteration that sends no NACK exists only under a fact time.Since(...) < X.
 func checkNackSuppression(c *Checker, rl *ssa.Function, head *ssa.BasicBlock) {
 	w := c.w
-	var nackSends []ssa.Instruction
-	for _, ci := range findCalls(rl, func(ci ssa.CallInstruction) bool {
+	isNackSend := func(ci ssa.CallInstruction) bool {
 		sc := ci.Common().StaticCallee()
 		if sc == nil || sc.Name() != "sendPacket" {
 			return false
@@ -452,6 +456,19 @@ func checkNackSuppression(c *Checker, rl *ssa.Function, head *ssa.BasicBlock) {
 				if n := namedOf(mi.X.Type()); n != nil && n.Obj().Name() == "PacketNACK" {
 					return true
 				}
+			}
+		}
+		return false
+	}
+	var nackSends []ssa.Instruction
+	for _, ci := range findCalls(rl, func(ci ssa.CallInstruction) bool {
+		if isNackSend(ci) {
+			return true
+		}
+		// a helper of the connection that sends the NACK
+		for _, cal := range w.Callees(ci) {
+			if w.pkgShort(cal) == targetGBN && cal != rl && len(findCalls(cal, isNackSend)) > 0 {
+				return true
 			}
 		}
 		return false
